@@ -262,7 +262,8 @@ class StaticUseDep(packages.PackageRestriction):
     def __init__(self, false_use, true_use):
         v = []
         if false_use:
-            v.append(values.ContainmentMatch(false_use, negate=True, match_all=True))
+            # none of the flags may be enabled (not "not all of them")
+            v.append(values.ContainmentMatch(false_use, negate=True))
         if true_use:
             v.append(values.ContainmentMatch(true_use, match_all=True))
 
@@ -350,8 +351,12 @@ class UseDepDefault(packages.PackageRestrictionMulti):
 
     def __init__(self, if_missing, false_use, true_use):
         v = []
-        if false_use:
-            v.append(_UseDepDefaultContainment(if_missing, false_use, negate=True))
+        # every listed flag has to be disabled: one restriction per flag, the negation
+        # of a multi flag containment would only demand that not all of them are enabled
+        v.extend(
+            _UseDepDefaultContainment(if_missing, (flag,), negate=True)
+            for flag in false_use
+        )
         if true_use:
             v.append(_UseDepDefaultContainment(if_missing, true_use))
 
